@@ -163,6 +163,8 @@ class Path:
             return True
         if z3.is_false(cond):
             return False
+        if getattr(self, 'no_fork', 0):
+            raise OutOfSubset('a branch on a symbolic condition where forking is switched off (argument of a dropped call)')
         i = len(self.decisions)
         if i < len(self.prefix):
             d = self.prefix[i]
